@@ -45,9 +45,9 @@ type globalInfo struct {
 }
 
 type fragInfo struct {
-	stmt    ast.Stmt
-	params  []*types.Var // free variables, declaration order
-	results []*types.Var // those of them the statement assigns
+	stmts   []ast.Stmt   // simple declarations directly in front of the loop (absorbed), then the loop
+	params  []*types.Var // free variables of stmts, declaration order
+	results []*types.Var // the variables the loop assigns that are declared outside the loop and used after it
 }
 
 type ext20 struct {
@@ -444,36 +444,63 @@ func (t *Translator) addFrags20(spec TransSpec) {
 			}
 			return true
 		})
-		// free variables: identifiers used inside the statement whose declaration lies outside it (locals / parameters)
-		set := map[types.Object]bool{}
-		t.assigned(st, set)
-		fr := &fragInfo{stmt: st}
-		seen := map[types.Object]bool{}
-		ast.Inspect(st, func(m ast.Node) bool {
-			id, ok := m.(*ast.Ident)
-			if !ok {
-				return true
-			}
-			v, ok := t.info.Uses[id].(*types.Var)
-			if !ok || v.IsField() || seen[v] || v.Parent() == t.tpkg.Scope() {
-				return true
-			}
-			if v.Pos() >= st.Pos() && v.Pos() < st.End() {
-				return true
-			}
-			seen[v] = true
-			fr.params = append(fr.params, v)
-			return true
-		})
-		sort.Slice(fr.params, func(i, j int) bool { return fr.params[i].Pos() < fr.params[j].Pos() })
-		for _, v := range fr.params {
-			if set[v] {
-				fr.results = append(fr.results, v)
+		// absorb the simple declarations directly in front of the loop (`var bits int`, `l := len(r)`): whether a counter is
+		// declared in the loop header or just before the loop then makes no difference to the fragment's interface
+		idx := 0
+		for i, s := range fd.Body.List {
+			if s == st {
+				idx = i
 			}
 		}
+		first := idx
+		for first > 0 && t.simpleDecl20(fd.Body.List[first-1]) {
+			first--
+		}
+		fr := &fragInfo{stmts: fd.Body.List[first : idx+1]}
+		inFrag := func(pos token.Pos) bool { return pos >= fr.stmts[0].Pos() && pos < st.End() }
+		// free variables: identifiers used inside the fragment whose declaration lies outside it (locals / parameters)
+		seen := map[types.Object]bool{}
+		for _, fs := range fr.stmts {
+			ast.Inspect(fs, func(m ast.Node) bool {
+				id, ok := m.(*ast.Ident)
+				if !ok {
+					return true
+				}
+				v, ok := t.info.Uses[id].(*types.Var)
+				if !ok || v.IsField() || seen[v] || v.Parent() == t.tpkg.Scope() || inFrag(v.Pos()) {
+					return true
+				}
+				seen[v] = true
+				fr.params = append(fr.params, v)
+				return true
+			})
+		}
+		sort.Slice(fr.params, func(i, j int) bool { return fr.params[i].Pos() < fr.params[j].Pos() })
+		// results: assigned by the loop, declared outside the loop statement, used after it
+		set := map[types.Object]bool{}
+		t.assigned(st, set)
+		usedAfter := map[types.Object]bool{}
+		for _, s := range fd.Body.List[idx+1:] {
+			ast.Inspect(s, func(m ast.Node) bool {
+				if id, ok := m.(*ast.Ident); ok {
+					if o := t.info.Uses[id]; o != nil {
+						usedAfter[o] = true
+					}
+				}
+				return true
+			})
+		}
+		var res []*types.Var
+		for o := range set {
+			if v, ok := o.(*types.Var); ok && !v.IsField() && v.Parent() != t.tpkg.Scope() && !(v.Pos() >= st.Pos() && v.Pos() < st.End()) && usedAfter[o] {
+				res = append(res, v)
+			}
+		}
+		sort.Slice(res, func(i, j int) bool { return res[i].Pos() < res[j].Pos() })
+		fr.results = res
 		key := fmt.Sprintf("%s.loop%d", fs.Func, fs.Nth)
 		name := "g_" + strings.NewReplacer(".", "_", ":", "_").Replace(key)
-		decl := &ast.FuncDecl{Name: ast.NewIdent(name), Type: fd.Type, Body: &ast.BlockStmt{Lbrace: st.Pos(), List: []ast.Stmt{st}, Rbrace: st.End()}}
+		decl := &ast.FuncDecl{Name: ast.NewIdent(name), Type: fd.Type, Body: &ast.BlockStmt{Lbrace: st.Pos(), List: fr.stmts, Rbrace: st.End()}}
 		obj := types.NewFunc(st.Pos(), t.tpkg, name, types.NewSignatureType(nil, nil, nil, nil, nil, false))
 		fi := &funcInfo{decl: decl, obj: obj, goName: key, name: name, callees: map[*funcInfo]bool{}, frag: fr}
 		for _, v := range fr.results {
@@ -484,12 +511,63 @@ func (t *Translator) addFrags20(spec TransSpec) {
 	}
 }
 
+// simpleDecl20: `var x T`, `var x = e`, `x := e` with e built from variables, constants, operators, len/cap/min/max and
+// conversions to integer types only.
+func (t *Translator) simpleDecl20(s ast.Stmt) bool {
+	var rhs []ast.Expr
+	switch x := s.(type) {
+	case *ast.DeclStmt:
+		gd, ok := x.Decl.(*ast.GenDecl)
+		if !ok || gd.Tok != token.VAR {
+			return false
+		}
+		for _, sp := range gd.Specs {
+			rhs = append(rhs, sp.(*ast.ValueSpec).Values...)
+		}
+	case *ast.AssignStmt:
+		if x.Tok != token.DEFINE {
+			return false
+		}
+		rhs = x.Rhs
+	default:
+		return false
+	}
+	ok := true
+	for _, e := range rhs {
+		ast.Inspect(e, func(n ast.Node) bool {
+			switch y := n.(type) {
+			case *ast.CallExpr:
+				if tv, isT := t.info.Types[y.Fun]; isT && tv.IsType() {
+					if b, isB := tv.Type.Underlying().(*types.Basic); !isB || b.Info()&types.IsInteger == 0 {
+						ok = false
+					}
+				} else if id, isId := ast.Unparen(y.Fun).(*ast.Ident); isId {
+					if bi, isBi := t.info.Uses[id].(*types.Builtin); !isBi || !(bi.Name() == "len" || bi.Name() == "cap" || bi.Name() == "min" || bi.Name() == "max") {
+						ok = false
+					}
+				} else {
+					ok = false
+				}
+			case *ast.CompositeLit, *ast.FuncLit, *ast.IndexExpr, *ast.SliceExpr, *ast.StarExpr, *ast.TypeAssertExpr:
+				ok = false
+			case *ast.UnaryExpr:
+				if y.Op == token.AND || y.Op == token.ARROW {
+					ok = false
+				}
+			}
+			return ok
+		})
+	}
+	return ok
+}
+
 // emitFrag20: the Definition for a loop fragment (called from emitFunc after fuel and the globals have been declared).
 func (t *Translator) emitFrag20(c *fctx, fi *funcInfo, en *env, params []string) string {
+	loop := fi.frag.stmts[len(fi.frag.stmts)-1]
 	for _, v := range fi.frag.params {
-		g := t.typeOf(v.Type(), fi.frag.stmt)
+		g := t.typeOf(v.Type(), loop)
 		if g.k == kStruct {
-			t.fail(fi.frag.stmt, "loop fragment with the struct variable %s", v.Name())
+			t.fail(loop, "loop fragment with the struct variable %s", v.Name())
 		}
 		var name string
 		en, name = c.declare(en, v, g)
@@ -507,13 +585,13 @@ func (t *Translator) emitFrag20(c *fctx, fi *funcInfo, en *env, params []string)
 		rt = "(" + rt + ")"
 	}
 	lc := &lctx{ret: func(v string) string { return "Ret " + v }}
-	body := c.stmt(fi.frag.stmt, en, lc, kont{f: func(e *env) string {
+	body := c.stmts(fi.frag.stmts, en, lc, kont{f: func(e *env) string {
 		var vs []string
 		for _, v := range fi.frag.results {
 			vs = append(vs, e.lookup(v).name)
 		}
 		return "Ret " + tuple(vs)
 	}, cheap: true})
-	return fmt.Sprintf("(* loop fragment %s   (%s) *)\nDefinition %s %s : M %s :=\n%s.\n", fi.goName, t.pos(fi.frag.stmt),
+	return fmt.Sprintf("(* loop fragment %s   (%s) *)\nDefinition %s %s : M %s :=\n%s.\n", fi.goName, t.pos(fi.frag.stmts[0]),
 		fi.name, strings.Join(params, " "), rt, strings.TrimRight(indentCoq(body), "\n"))
 }
